@@ -250,7 +250,7 @@ impl<I: Interner> RenderAsRust<I> for LifetimeData<I> {
                 write!(f, "'_placeholder_{}_{}", ix.ui.counter, ix.idx)
             }
             LifetimeData::Static => write!(f, "'static"),
-            LifetimeData::Erased => write!(f, "'_"),
+            LifetimeData::Erased => write!(f, "'erased"),
             LifetimeData::Error => write!(f, "'{{error}}"),
             // Matching the void ensures at compile time that this code is
             // unreachable
